@@ -9,7 +9,9 @@
 package main
 
 import (
+	"net"
 	"sort"
+	"strconv"
 	"strings"
 	"sync"
 
@@ -61,11 +63,46 @@ func payloads(t string) [][]byte {
 	return out
 }
 
+// accepts: does Go's net package accept s as an IP address, optionally bracketed / with a port?
+func accepts(s string) bool {
+	if net.ParseIP(s) != nil {
+		return true
+	}
+	if strings.HasPrefix(s, "[") && strings.HasSuffix(s, "]") {
+		return strings.Contains(s, ":") && net.ParseIP(s[1:len(s)-1]) != nil
+	}
+	host, port, err := net.SplitHostPort(s)
+	if err != nil || net.ParseIP(host) == nil {
+		return false
+	}
+	if strings.Contains(host, ":") != strings.HasPrefix(s, "[") {
+		return false
+	}
+	n, err := strconv.Atoi(port)
+	return err == nil && n >= 0 && n <= 65535 && len(port) <= 5
+}
+
 func handle(args []string) string {
+	if len(args) == 3 && args[0] == "prints" {
+		// prints x<4 or 16 bytes> <port>: what net.IP.String and net.TCPAddr.String print
+		b, err := wire.Payload(args[1])
+		port, err2 := strconv.Atoi(args[2])
+		if err != nil || err2 != nil || (len(b) != 4 && len(b) != 16) {
+			return "!badcase"
+		}
+		ip := net.IP(b)
+		return wire.Hex([]byte(ip.String())) + " " + wire.Hex([]byte((&net.TCPAddr{IP: ip, Port: port}).String()))
+	}
 	if len(args) != 2 {
 		return "!badcase"
 	}
 	switch args[0] {
+	case "accepts":
+		b, err := wire.Payload(args[1])
+		if err != nil {
+			return "!badcase"
+		}
+		return flag(accepts(string(b)))
 	case "scrub":
 		b, err := wire.Payload(args[1])
 		if err != nil {
